@@ -1424,7 +1424,7 @@ class IteDict(dict):
             e = lift(items[-1][1]) if full else lift(d)
             vals = [] if full else [d]
             for key, v in (items[:-1] if full else items):
-                e = z3.If(k.e == key, lift(v), e)
+                e = z3.If(k.e == _int(key), lift(v), e)  # _int: a key may be an int subclass whose str() is a name (AFI)
                 vals.append(v)
             if full:
                 vals.append(items[-1][1])
